@@ -514,6 +514,12 @@ func (fr *Framer) ReadFrame() (Frame, error) {
 		if ce, ok := err.(connError); ok {
 			return nil, fr.connError(ce.Code, ce.Reason)
 		}
+		if err == io.ErrUnexpectedEOF {
+			// The payload is too small to contain the frame's mandatory
+			// fields (pad length, priority, promised stream ID), which is
+			// a frame size error, RFC 7540 section 4.2, not a short read.
+			return nil, fr.connError(ErrCodeFrameSize, "frame payload too small for its mandatory fields")
+		}
 		return nil, err
 	}
 	if err := fr.checkFrameOrder(f); err != nil {
